@@ -142,14 +142,14 @@ def extra_content(n):
 def ti_content(n):
     spec = TI.seed_layered() if n == 1 else TI.seed_flat()
     spec["variants"], spec["images"], spec["checksums"] = [], {}, {}
-    spec["tree"]["platforms"] = ["x86_64"]
+    spec["tree"]["platforms"] = ["x86_64"] if n == 0 else []          # (content 1: the arch is only implied)
     tops = [["var", None, TI.vspec(v, "variant", paths={"packages": v + "/Packages", "repository": v})] for v in ("Server", "Client", "Workstation")]
     kids = [["var", "Server", TI.vspec(c, t, parent_uid="Server", paths={"packages": "k/" + c})]
             for c, t in (("opt", "optional"), ("HA", "addon"), ("extra", "variant"))]
     plats = [["platform", p] for p in ("xen", "efi", "ppc")]
     sums = [["checksum", p, "sha256", hashlib.sha256(p.encode()).hexdigest()] for p in ("docs/README", "images/boot.iso", "docs/readme", "Images/boot.iso")]
-    table = [["image", "x86_64", nm, "images/" + nm.lower()] for nm in ("kernel", "Kernel", "initrd", "boot.iso")]
-    tables = [["image", p, "kernel", "images/%s/vmlinuz" % p] for p in ("xen", "efi", "ppc")]
+    table = [["image", "x86_64" if n == 0 else "efi", nm, "images/" + nm.lower()] for nm in ("kernel", "Kernel", "initrd", "boot.iso")]
+    tables = [["image", p, "vmlinuz", "images/%s/vmlinuz" % p] for p in ("xen", "efi", "ppc")]
     return {"fmt": "ti", "spec": spec, "parts": [tops, kids, plats, sums, table, tables]}
 
 
@@ -278,6 +278,9 @@ def lint(fmt, text):
             keys = [k for k, _ in opts]
             if keys != sorted(keys):
                 problems.append("options of [%s] are not sorted: %s" % (n, keys))
+            for k, v in opts:
+                if k in ("platforms", "variants", "addons") and v and v.split(",") != sorted(v.split(",")):
+                    problems.append("[%s] %s is not a sorted list: %s" % (n, k, v))
     else:
         want = json.dumps(json.loads(text), indent=4, sort_keys=True, separators=(",", ": "))
         if text != want:
